@@ -29,6 +29,7 @@ META["technique"] += "; sibling agreement between the undefined classes (a relax
 META["technique"] += '; truth-table complement check of reject against where'
 META["technique"] += "; nil tests on elements in filter comprehensions cover undefined and the map placeholder"
 META["technique"] += '; field-not-value presence tests for optionally evaluated tag arguments; zero-expected lint for hash-based collections in the filters; predicate agreement of where / find / find_index / has'
+META["technique"] += "; `is not None` defaulting of RenderContext's mapping parameters"
 META["level_text"] += " Also decided (R8): every hook that a strict undefined class answers without raising answers exactly as the default Undefined does."
 
 U = "liquid2.undefined.Undefined"
@@ -546,6 +547,23 @@ def run(prog: Program, res: Result) -> None:  # noqa: PLR0912, PLR0915
     from checks.shared import check_selection_predicates_agree
 
     check_selection_predicates_agree(prog, res, "C16.R14")
+    # ------------------------------------------------------------------ R17 an empty mapping is a mapping
+    res.rule("C16.R17", "what a tag binds after building its context is visible in it: RenderContext.__init__ defaults its mapping parameters with `x if x is not None else …`, never with `x or …` - the namespace a `render … with` / `include … for` tag fills after copying the context is still empty (falsy) when the constructor sees it, and `or {}` replaces it by a fresh dict, so the bound variable is undefined in the partial although the data has it")
+    init17 = prog.cls("liquid2.context.RenderContext").methods.get("__init__")
+    if init17 is None:
+        raise AnalysisError("RenderContext.__init__ vanished")
+    map_params = [a.arg for a in init17.node.args.args + init17.node.args.kwonlyargs if a.annotation is not None and "Mapping" in norm(a.annotation, 200)]
+    n17 = 0
+    for p17 in map_params:
+        n17 += 1
+        ors = [b for b in ast.walk(init17.node) if isinstance(b, ast.BoolOp) and isinstance(b.op, ast.Or) and isinstance(b.values[0], ast.Name) and b.values[0].id == p17]
+        site = f"{init17.file}:{init17.node.lineno} RenderContext.__init__"
+        what = f"RenderContext.__init__: `{p17}` is kept when it is an empty mapping"
+        if ors:
+            res.fail("C16.R17", file=init17.file, line=ors[0].lineno, qualname="RenderContext.__init__", construct=f"RenderContext.__init__: `{norm(ors[0], 40)}` replaces an empty mapping", message=f"RenderContext.__init__ defaults `{p17}` with `{norm(ors[0], 40)}`: an empty mapping is falsy, so the namespace that `{{% render 'p' with x as item %}}` binds into *after* building the context is swapped for a fresh dict - `item` is undefined in the partial, and a strict render raises UndefinedError for a variable the data has", what=what)
+        else:
+            res.ok("C16.R17", site, what, "`is not None` (or no default)")
+    res.floor("C16.R17", "mapping parameters of RenderContext.__init__", n17, 2)
     # ------------------------------------------------------------------ R15 nil is a value, not an absence
     res.rule("C16.R15", "a tag tells 'not written' from 'written, and nil' by its own field, never by the value: a local bound as `v = self.F.evaluate(context) if self.F else None` is not tested for None / truth to decide whether the tag binds it - `{% include 'card' with product.image %}` with image = nil binds `card` to nil; testing the value leaves `card` unbound, and the partial's read of it raises UndefinedError under the strict policies although nothing is missing from the data")
     n15 = 0
